@@ -275,7 +275,7 @@ func runC10(c *Ctx) {
 			reprs = append(reprs, "sparse")
 		}
 		if n <= 5 {
-			reprs = append(reprs, "cocomplement", "induced-view")
+			reprs = append(reprs, "cocomplement", "induced-view", "dense-bytes", "nested-view")
 		}
 		total := int64(len(class))
 		c.parFor(total, 64, func(lo, hi int64) {
@@ -327,6 +327,9 @@ func replayC10(kind string, raw json.RawMessage) *Failure {
 		var vc viewCase
 		json.Unmarshal(raw, &vc)
 		return evalViewHistory(vc, observeC10)
+	}
+	if kind != "c10" {
+		return unsupportedKind(kind)
 	}
 	var gc giCase
 	if err := json.Unmarshal(raw, &gc); err != nil {
